@@ -10387,6 +10387,66 @@ func ruleGoroutinePanicFree(c *Ctx) {
 		})
 	}
 	c.Floor("goroutines started by package vm", n, 1)
+	// and they are let go on every exit: the channel such goroutines receive their work from is closed by a defer,
+	// not by a statement at the end - the function between the start of the workers and that statement decodes keys
+	// from the script and can panic (the panic becomes a FAULT, the workers stay blocked on the channel for the life
+	// of the process: three leaked goroutines per witness with a malformed key and two signatures, finding 106)
+	m := 0
+	for _, fd := range c.P.AllFuncDecls() {
+		if fd.Pkg != pk || fd.Decl.Body == nil {
+			continue
+		}
+		// channels handed to `go` calls
+		chans := map[types.Object]bool{}
+		ast.Inspect(fd.Decl.Body, func(x ast.Node) bool {
+			if gs, ok := x.(*ast.GoStmt); ok {
+				for _, a := range gs.Call.Args {
+					if id, ok := ast.Unparen(a).(*ast.Ident); ok {
+						if _, isCh := info.TypeOf(id).Underlying().(*types.Chan); isCh {
+							chans[info.ObjectOf(id)] = true
+						}
+					}
+				}
+			}
+			return true
+		})
+		if len(chans) == 0 {
+			continue
+		}
+		closedBy := map[types.Object]string{}
+		var walk func(n ast.Node, deferred bool)
+		walk = func(n ast.Node, deferred bool) {
+			ast.Inspect(n, func(x ast.Node) bool {
+				switch y := x.(type) {
+				case *ast.DeferStmt:
+					walk(y.Call, true)
+					return false
+				case *ast.CallExpr:
+					if id, ok := y.Fun.(*ast.Ident); ok && id.Name == "close" && len(y.Args) == 1 {
+						if a, ok := ast.Unparen(y.Args[0]).(*ast.Ident); ok && chans[info.ObjectOf(a)] {
+							if deferred {
+								closedBy[info.ObjectOf(a)] = "defer"
+							} else if closedBy[info.ObjectOf(a)] == "" {
+								closedBy[info.ObjectOf(a)] = "statement"
+							}
+						}
+					}
+				}
+				return true
+			})
+		}
+		walk(fd.Decl.Body, false)
+		for o, how := range closedBy {
+			m++
+			key := fmt.Sprintf("%s.close(%s)", shortSym(FuncKey(fd.Obj)), o.Name())
+			if how == "defer" {
+				c.OK(key, c.P.Pos(fd.Decl.Pos()), "the workers' channel is closed on every exit")
+			} else {
+				c.Fail(key, c.P.Pos(fd.Decl.Pos()), fmt.Sprintf("%s closes %s, the channel its worker goroutines wait on, with a statement at its end: a panic in between (a malformed public key makes bytesToPublicKey panic; the VM turns it into a FAULT) skips the close and the workers stay blocked for the life of the process - every witness with a malformed key and two signatures leaks its goroutines", FuncKey(fd.Obj), o.Name()))
+			}
+		}
+	}
+	c.Floor("worker channels closed by package vm", m, 1)
 }
 
 // ruleSlotInitOnce (C13, C12): a context gets its local and argument slots once. INITSLOT creates up to two slots,
